@@ -28,7 +28,7 @@ func init() {
 		Assumptions: []string{"Blank.SetSource(static inner source) is modelled as a blocking report of the inner source's value"},
 		MinDistinct: map[string]int{"quick": 600, "thorough": 60000},
 		MinCounters: map[string]map[string]int64{
-			"quick":    {"linearizable_histories": 250, "context_ended_reports": 150, "followups_after_cancellation": 150, "cancel_inside_verify": 20, "cancel_at_reply": 20},
+			"quick":    {"reports_judged_with_queue_full": 100, "linearizable_histories": 250, "context_ended_reports": 150, "followups_after_cancellation": 150, "cancel_inside_verify": 20, "cancel_at_reply": 20},
 			"thorough": {"linearizable_histories": 300000, "context_ended_reports": 150000},
 		},
 		Plan: func(tier string) fw.Plan {
@@ -190,9 +190,98 @@ func c07Wait[T any](ch chan T) (T, bool) {
 	}
 }
 
+// c07QueueFull: with a user callback parked and the 64-slot callback queue full behind it, blocking reports must still
+// return what happened to their value: nil for an installed one, the rejection for one that fails to stack or verify.
+func c07QueueFull(w *fw.Worker, i int, r *fw.Rand) {
+	desc := map[string]any{"mode": "callback-parked-queue-full"}
+	w.BeginDesc(i, "callback-parked-queue-full")
+	e, err := conc.Start(context.Background(), r.U64(), conc.Opts{NSrc: 2}, nil)
+	if err != nil {
+		w.Violation(i, "config-failed", err.Error(), desc)
+		return
+	}
+	defer e.Stop()
+	e.CBGate = make(chan struct{})
+	released := false
+	defer func() {
+		if !released {
+			close(e.CBGate)
+		}
+	}()
+	ctx := e.S.Ctx
+	call := func(what string, src int, l *conc.Layer) (int, bool) {
+		rd := make(chan int, 1)
+		go func() { res, _ := e.Report(ctx, 1, src, l, true); rd <- res }()
+		select {
+		case res := <-rd:
+			return res, true
+		case <-time.After(10 * time.Second):
+			stuckVerdict(w, i, what+" while a callback is parked and the callback queue is full", desc)
+			return 0, false
+		}
+	}
+	n := 66 + r.Intn(12)
+	for k := 0; k < n; k++ {
+		l := e.NewLayer()
+		l.Set[k%4], l.Set[2] = true, true
+		res, ok := call(fmt.Sprintf("valid blocking report %d", k), k%2, l)
+		if !ok {
+			return
+		}
+		if res != conc.ResNil {
+			w.Violation(i, "valid-report-not-installed-behind-parked-callback", fmt.Sprintf("report %d of %s returned res=%d", k, l, res), desc)
+			return
+		}
+	}
+	probes := r.Range(2, 5)
+	for k := 0; k < probes; k++ {
+		src := 1 // the last source: its negative value wins, so the stack is invalid whatever the other source holds
+		bad := e.RandLayer(r, 100, 0)
+		if r.Bool() {
+			bad.NegA, bad.NegB, bad.IllTyped = false, false, true
+		}
+		res, ok := call("blocking report of "+bad.String(), src, bad)
+		if !ok {
+			return
+		}
+		if res != conc.ResRejected {
+			w.Violation(i, "rejected-report-not-reported-as-rejected-behind-parked-callback", fmt.Sprintf("report of %s returned res=%d", bad, res), desc)
+			return
+		}
+		fix := e.NewLayer()
+		fix.Set[0], fix.Set[1] = true, true
+		res, ok = call("valid blocking report after a rejected one", src, fix)
+		if !ok {
+			return
+		}
+		if res != conc.ResNil {
+			w.Violation(i, "valid-report-not-installed-behind-parked-callback", fmt.Sprintf("report of %s after a rejected one returned res=%d", fix, res), desc)
+			return
+		}
+		w.Count("reports_judged_with_queue_full", 2)
+	}
+	released = true
+	close(e.CBGate)
+	e.Quiesce(ctx)
+	e.Read(1)
+	switch e.H.Check(e.Model, 20*time.Second) {
+	case "ok":
+		w.Count("linearizable_histories", 1)
+		w.Distinct(fmt.Sprintf("queue-full|%d|%d", n, probes))
+	case "illegal":
+		w.Violation(i, "history-not-linearizable", "queue-full script", desc)
+	default:
+		w.Inconclusive(i, "linearizability check timed out")
+	}
+}
+
 func runC07(w *fw.Worker) {
 	placements := []string{"before", "in-verify", "at-reply", "after", "random", "none"}
 	w.Cases(func(i int, r *fw.Rand) {
+		if i%40 == 13 {
+			c07QueueFull(w, i, r)
+			return
+		}
 		placement := placements[(i+w.Shard)%len(placements)]
 		useBlank := r.Chance(35)
 		o := conc.Opts{NSrc: r.Range(2, 3), Skip: r.Chance(20)}
